@@ -184,3 +184,15 @@ func (rw *RemoteWrapper) Exists(ctx context.Context, path string, key string) (b
 	// Check if the file exists in the remote cache
 	return rw.remote.Exists(ctx, path, key)
 }
+
+// IsFullyStored checks if a file exists in both the local file system cache and the remote cache.
+// Unlike Exists it can be used to decide whether a write may be skipped: a key that is only
+// present locally (e.g. because it was cached before the remote was configured, or because an
+// earlier remote write failed) still has to be written through to the remote.
+func (rw *RemoteWrapper) IsFullyStored(ctx context.Context, path string, key string) (bool, error) {
+	localExists, err := rw.fs.Exists(ctx, path, key)
+	if err != nil || !localExists {
+		return false, err
+	}
+	return rw.remote.Exists(ctx, path, key)
+}
